@@ -981,8 +981,10 @@ mod thr {
             events: Mutex::new(Vec::new()),
             done: std::sync::Barrier::new(progs.len() + 1), // the threads and the controller
         });
-        let mut w = World::default();
-        log.rec(format!("thrcase {seed} pid=0"), format!("ok | {}", w.view()));
+        // in the cluster build the pid table is compared too
+        let cluster = cfg!(feature = "cluster");
+        let mut w = World { cluster, ..World::default() };
+        log.rec(format!("thrcase {seed} pid={}", cluster as u8), format!("ok | {}", w.view()));
         st.bump("thr_cases");
         let mut ctls = Vec::new();
         let mut handles = Vec::new();
